@@ -804,6 +804,13 @@ func (m *Manager) computeParentMap() map[types.Hash256]int {
 			parentMap[types.Hash256(txn.FileContractID(i))] = index
 		}
 	}
+	return parentMap
+}
+
+// computeV2ParentMap maps the IDs of the elements created by pooled v2
+// transactions to the position of the creating transaction in the v2 pool.
+func (m *Manager) computeV2ParentMap() map[types.Hash256]int {
+	parentMap := make(map[types.Hash256]int)
 	for index, txn := range m.txpool.v2txns {
 		txid := txn.ID()
 		for i := range txn.SiacoinOutputs {
@@ -1186,7 +1193,7 @@ func (m *Manager) V2TransactionSet(basis types.ChainIndex, txn types.V2Transacti
 	m.revalidatePool()
 
 	// get the transaction's parents
-	parentMap := m.computeParentMap()
+	parentMap := m.computeV2ParentMap()
 	var parents []types.V2Transaction
 	seen := make(map[int]bool)
 	check := func(id types.Hash256) {
